@@ -79,14 +79,17 @@ type c15World struct {
 	pendingMembers []*l1Val
 }
 
-func newC15(r *core.Run) *c15World {
-	p := &l2Profile{Prop: "C15", MaxTx: 2, W: map[string]int{"bridgeinfo": 5, "params": 3, "send": 2}, ClientID: c15Client, Pairs: c15Pairs, ForceBridgeInfo: true,
+func newC15(r *core.Run, prop string, replicas bool) *c15World {
+	p := &l2Profile{Prop: prop, MaxTx: 2, W: map[string]int{"bridgeinfo": 5, "params": 3, "send": 2}, ClientID: c15Client, Pairs: c15Pairs, ForceBridgeInfo: true,
 		NonTriv: func(*l2World) bool { return true }}
 	if r.Chance(1, 4) {
 		p.ClientID = "" // the L1 client id is not configured yet (it can be bound later through MsgSetBridgeInfo)
 	}
 	c := &c15World{r: r, set: map[string]*l1Val{}}
 	c.w = newL2World(r, p)
+	if replicas {
+		c.w.addReplicas()
+	}
 	c.veCodec = connectcodec.NewCompressionVoteExtensionCodec(connectcodec.NewDefaultVoteExtensionCodec(), connectcodec.NewZLibCompressor())
 	c.ecCodec = connectcodec.NewCompressionExtendedCommitCodec(connectcodec.NewDefaultExtendedCommitCodec(), connectcodec.NewZStdCompressor())
 	n := 3 + r.Intn(5)
@@ -454,8 +457,12 @@ func (c *c15World) checkHostSet() *core.Violation {
 	return nil
 }
 
-func runC15(r *core.Run) *core.Violation {
-	c := newC15(r)
+func runC15(r *core.Run) *core.Violation { return runC15As(r, "C15", false) }
+
+// runC15As runs the oracle-relay scenario for another property (C18 attaches replicas
+// to it: every judgement owned by C15 then merely aborts the run).
+func runC15As(r *core.Run, prop string, replicas bool) *core.Violation {
+	c := newC15(r, prop, replicas)
 	w := c.w
 	steps := 10 + r.Intn(30)
 	if r.Tier == "thorough" && r.Chance(1, 4) {
